@@ -93,19 +93,40 @@ type Config struct {
 	ExportGlob bool // export the globals themselves too
 	NoTraps    bool // do not generate designated trap variants (oob, null, sig…)
 	Start      bool // script is compiled into a _start function (C02)
+	// Group optionally merges (opcode, class) pairs that share a root cause
+	// ("" = no grouping for this pair).
+	Group func(op, class string) (string, string)
+}
+
+// KeyOf maps (opcode, class) to the pair used in finding keys and in the
+// exclusion lookup, so that one root cause spanning several opcodes/classes is
+// one finding.  The default groups every out-of-bounds class under memory/oob.
+func (c *Config) KeyOf(op, class string) (string, string) {
+	if c.Group != nil {
+		if o, cl := c.Group(op, class); o != "" {
+			return o, cl
+		}
+	}
+	if class == "oob" || class == "beyond-initial-size" {
+		return "memory", "oob"
+	}
+	return op, class
+}
+
+// Key renders the finding key of (opcode, class).
+func (c *Config) Key(op, class string) string {
+	o, cl := c.KeyOf(op, class)
+	return "op=" + o + "/" + cl
 }
 
 func (c *Config) excluded(op, class string) bool {
-	if c.Excluded != nil && (class == "oob" || class == "beyond-initial-size") && c.Excluded("memory", "oob") {
-		// one root cause (no bounds checks at all) may be listed once as op=memory/oob
-		if c.OnExcluded != nil {
-			c.OnExcluded("memory", "oob")
-		}
-		return true
+	if c.Excluded == nil {
+		return false
 	}
-	if c.Excluded != nil && c.Excluded(op, class) {
+	o, cl := c.KeyOf(op, class)
+	if c.Excluded(o, cl) || ((o != op || cl != class) && c.Excluded(op, class)) {
 		if c.OnExcluded != nil {
-			c.OnExcluded(op, class)
+			c.OnExcluded(o, cl)
 		}
 		return true
 	}
